@@ -126,7 +126,7 @@ PROFILE = dict(
     p_adapters=0.8, p_modifiers=0.2, p_filters=0.4, p_redirect=0.5, p_untrimmed_opts=0.3,
     p_demux=0.12, p_info=0.15, p_rename=0.05, p_revcomp=0.05, p_pair_adapters=0.03,
     p_minimal_report=0.05, p_stdout=0.1, workers=(2, 4), simple_adapters=True,
-    p_big=0.004, p_huge=0.0,  # few large inputs, and never with a one-pair buffer (see _bias_buffer)
+    p_big=0.004, p_huge=0.0, p_long_read=0.0,  # few large inputs, and never with a one-pair buffer (see _bias_buffer)
     allow_fasta_names_for_fastq=False,
 )
 
